@@ -255,5 +255,228 @@ theorem ObjectVal_eq (ord : List (String × Value) → List (String × Value)) (
   simp only [List.map_nil] at this
   exact this
 
+/-! ### `SetVal`, `CanSetVal`, `SetValFromValueSet`
+
+`set.NewSetFromSlice` / `Set.Copy` are the TRANSLATED definitions of `Generated/SetFns.lean`, equal to `SetImpl.fromList` /
+`SetImpl.copy` by `Lemmas/SetFnsTie.lean`.  `setRules.Hash` is the parameter `hashOf`; the hand-written `Value.setValH`
+takes the same hashes as a column `hs`, one per member. -/
+
+/-- `Value.setValH` with the hash as a function (the reading the translation produces) -/
+def setValF (hashOf : Ty → Payload → Int) (ws : List Value) : Res Value :=
+  if ws.isEmpty then .panic "must not call SetVal with empty slice"
+  else (Gocty.elemTypeOf .dyn (ws.map Value.setMember)).map fun et =>
+    Fn.withMarkSets ⟨.set et, ifaceSet ⟨(SetImpl.fromList (setRules hashOf et)
+      (Gocty.payloads (ws.map Value.setMember))).buckets, setRules hashOf et⟩⟩
+      ((ws.filter fun w => w.marksDeep.length > 0).map Value.marksDeep)
+
+/-- what the tie assumes of the members: a value contains a marker iff its deep mark set is not empty (true of
+well-formed values: a marker carries a non-empty mark set) -/
+def MarksFaithful (w : Value) : Prop := w.containsMarked = decide (w.marksDeep.length > 0)
+
+theorem SetVal_loop1_eq (hashOf : Ty → Payload → Int) (v0 : List Value) :
+    ∀ (l : List Value) (done : List Payload) (et : Ty) (ms : List (List String)), (∀ w ∈ l, MarksFaithful w) →
+    cls (SetVal_loop1 hashOf v0 et (done ++ List.replicate l.length .null) ms (Int.ofNat done.length) l) =
+    cls ((Gocty.elemTypeOf et (l.map Value.setMember)).map fun et' =>
+      Fn.withMarkSets ⟨.set et', ifaceSet ⟨(SetImpl.fromList (setRules hashOf et')
+        (done ++ Gocty.payloads (l.map Value.setMember))).buckets, setRules hashOf et'⟩⟩
+        (ms ++ (l.filter fun w => w.marksDeep.length > 0).map Value.marksDeep))
+  | [], done, et, ms, _ => by
+    simp [SetVal_loop1, Gocty.elemTypeOf, Gocty.payloads, Res.map, SetFnsTie.NewSetFromSlice_eq, Res.bind]
+  | w :: rest, done, et, ms, hm => by
+    have hw : w.containsMarked = decide (w.marksDeep.length > 0) := hm w (by simp)
+    have hrest : ∀ w ∈ rest, MarksFaithful w := fun x hx => hm x (by simp [hx])
+    have hlen : ∀ x : Payload, (Int.ofNat done.length + 1) = Int.ofNat (done ++ [x]).length := by intro x; simp
+    simp only [SetVal_loop1, List.length_cons, List.replicate_succ, sliceSet_next, List.map_cons, Gocty.elemTypeOf,
+      Gocty.payloads, Res.bind]
+    by_cases hc : w.marksDeep.length > 0
+    · have hsm : Value.setMember w = w.unmarkDeep := by simp [Value.setMember, hc]
+      have hcm : w.containsMarked = true := by rw [hw]; simp [hc]
+      have hf : (List.filter (fun w => decide (w.marksDeep.length > 0)) (w :: rest)) =
+          w :: List.filter (fun w => decide (w.marksDeep.length > 0)) rest := by simp [List.filter, hc]
+      have hpl : done ++ (w.unmarkDeep.v :: Gocty.payloads (rest.map Value.setMember)) =
+          (done ++ [w.unmarkDeep.v]) ++ Gocty.payloads (rest.map Value.setMember) := by simp
+      have hms : ms ++ (w.marksDeep :: (List.filter (fun w => decide (w.marksDeep.length > 0)) rest).map Value.marksDeep) =
+          (ms ++ [w.marksDeep]) ++ (List.filter (fun w => decide (w.marksDeep.length > 0)) rest).map Value.marksDeep := by simp
+      simp only [hcm, if_true, hsm, hf, List.map_cons, hpl, hms]
+      split
+      · rw [hlen]; exact SetVal_loop1_eq hashOf v0 rest _ _ _ hrest
+      · split
+        · simp [cls, Res.map]
+        · rw [hlen]; exact SetVal_loop1_eq hashOf v0 rest _ _ _ hrest
+    · have hsm : Value.setMember w = w := by simp [Value.setMember, hc]
+      have hcm : w.containsMarked = false := by rw [hw]; simp [hc]
+      have hf : (List.filter (fun w => decide (w.marksDeep.length > 0)) (w :: rest)) =
+          List.filter (fun w => decide (w.marksDeep.length > 0)) rest := by simp [List.filter, hc]
+      have hpl : done ++ (w.v :: Gocty.payloads (rest.map Value.setMember)) =
+          (done ++ [w.v]) ++ Gocty.payloads (rest.map Value.setMember) := by simp
+      simp only [hcm, hsm, hf, hpl, Bool.false_eq_true, if_false]
+      split
+      · rw [hlen]; exact SetVal_loop1_eq hashOf v0 rest _ _ _ hrest
+      · split
+        · simp [cls, Res.map]
+        · rw [hlen]; exact SetVal_loop1_eq hashOf v0 rest _ _ _ hrest
+
+/-- `cty.SetVal`, for all arguments whose members are `MarksFaithful`: the generated definition returns what the
+hand-written control flow returns with `hashOf` as the hash, and panics on the same arguments -/
+theorem SetVal_eq_F (hashOf : Ty → Payload → Int) (ws : List Value) (hm : ∀ w ∈ ws, MarksFaithful w) :
+    cls (SetVal hashOf ws) = cls (setValF hashOf ws) := by
+  unfold SetVal setValF
+  rw [len_eq_zero]
+  split
+  · rfl
+  · rw [sliceMake_len]
+    simp only [Res.bind]
+    have := SetVal_loop1_eq hashOf ws ws [] .dyn [] hm
+    simp only [List.nil_append, List.length_nil] at this
+    rw [show (Int.ofNat 0) = (0 : Int) from rfl] at this
+    exact this
+
+/-! the hash column of `setValH` against the hash function of the translation -/
+
+/-- a member with its hash -/
+def withHash (h : Payload → Int) (p : Payload) : Payload × Int := (p, h p)
+
+def mapBuckets (h : Payload → Int) (bs : List (Int × List Payload)) : List (Int × List (Payload × Int)) :=
+  bs.map fun kv => (kv.1, kv.2.map (withHash h))
+
+theorem lookup_mapBuckets (h : Payload → Int) : ∀ (bs : List (Int × List Payload)) (k : Int),
+    SetImpl.lookup (mapBuckets h bs) k = (SetImpl.lookup bs k).map (·.map (withHash h))
+  | [], k => rfl
+  | (k', b) :: rest, k => by
+    simp only [mapBuckets, List.map_cons, SetImpl.lookup]
+    split
+    · rfl
+    · exact lookup_mapBuckets h rest k
+
+theorem setBucket_mapBuckets (h : Payload → Int) : ∀ (bs : List (Int × List Payload)) (k : Int) (b : List Payload),
+    SetImpl.setBucket (mapBuckets h bs) k (b.map (withHash h)) = mapBuckets h (SetImpl.setBucket bs k b)
+  | [], k, b => rfl
+  | (k', c) :: rest, k, b => by
+    simp only [mapBuckets, List.map_cons, SetImpl.setBucket]
+    split
+    · rfl
+    · split
+      · rfl
+      · have := setBucket_mapBuckets h rest k b
+        simp only [mapBuckets] at this
+        simp [this]
+
+theorem add_mapBuckets (hashOf : Ty → Payload → Int) (et : Ty) (s : SetImpl Payload) (x : Payload) :
+    SetImpl.add (Value.setRules et) ⟨mapBuckets (hashOf et) s.buckets⟩ (withHash (hashOf et) x) =
+    ⟨mapBuckets (hashOf et) (SetImpl.add (setRules hashOf et) s x).buckets⟩ := by
+  have hg : ∀ o : Option (List Payload), ((o.map (·.map (withHash (hashOf et)))).getD []) =
+      (o.getD []).map (withHash (hashOf et)) := by intro o; cases o <;> rfl
+  simp only [SetImpl.add, Value.setRules, setRules, lookup_mapBuckets, hg, List.any_map]
+  have hany : ∀ b : List Payload, (b.any ((fun ev : Payload × Int => equivP et (withHash (hashOf et) x).1 ev.1) ∘ withHash (hashOf et))) =
+      b.any (fun ev => equivP et x ev) := fun _ => rfl
+  rw [hany]
+  by_cases hc : (((SetImpl.lookup s.buckets (hashOf et x)).getD []).any fun ev => equivP et x ev) = true
+  · have hc' : (((SetImpl.lookup s.buckets (withHash (hashOf et) x).2).getD []).any fun ev => equivP et x ev) = true := hc
+    simp only [hc, hc', ↓reduceIte]
+  · have hc' : ¬ (((SetImpl.lookup s.buckets (withHash (hashOf et) x).2).getD []).any fun ev => equivP et x ev) = true := hc
+    simp only [hc, hc', ↓reduceIte]
+    have := setBucket_mapBuckets (hashOf et) s.buckets (hashOf et x) ((SetImpl.lookup s.buckets (hashOf et x)).getD [] ++ [x])
+    simp only [List.map_append, List.map_cons, List.map_nil] at this
+    exact congrArg SetImpl.mk this
+
+theorem addAll_mapBuckets (hashOf : Ty → Payload → Int) (et : Ty) : ∀ (l : List Payload) (s : SetImpl Payload),
+    SetImpl.addWhere (Value.setRules et) (fun _ => true) ⟨mapBuckets (hashOf et) s.buckets⟩ (l.map (withHash (hashOf et))) =
+    ⟨mapBuckets (hashOf et) (SetImpl.addWhere (setRules hashOf et) (fun _ => true) s l).buckets⟩
+  | [], s => rfl
+  | x :: l, s => by
+    simp only [SetImpl.addWhere, List.map_cons, List.foldl_cons, if_true]
+    rw [add_mapBuckets]
+    exact addAll_mapBuckets hashOf et l _
+
+theorem zip_withHash (h : Payload → Int) : ∀ l : List Payload, l.zip (l.map h) = l.map (withHash h)
+  | [] => rfl
+  | x :: l => by simp [withHash, zip_withHash h l]
+
+theorem flatIds_mapBuckets (h : Payload → Int) : ∀ bs : List (Int × List Payload),
+    Value.flatIds (mapBuckets h bs) = bs.flatMap fun kv => kv.2.map fun _ => kv.1
+  | [] => rfl
+  | kv :: bs => by
+    have := flatIds_mapBuckets h bs
+    simp only [Value.flatIds, mapBuckets] at this ⊢
+    simp [this]
+
+theorem values_mapBuckets (h : Payload → Int) : ∀ bs : List (Int × List Payload),
+    (SetImpl.values ⟨mapBuckets h bs⟩).map (·.1) = SetImpl.values ⟨bs⟩
+  | [] => rfl
+  | kv :: bs => by
+    have := values_mapBuckets h bs
+    have hid : ∀ l : List Payload, l.map ((fun x : Payload × Int => x.1) ∘ withHash h) = l := by
+      intro l; induction l <;> simp_all [withHash]
+    simp only [SetImpl.values, mapBuckets] at this ⊢
+    simp [this, hid]
+
+/-- with the hashes the function gives, the hand-written `Value.setValH` (the constructor of `C06.wf_setVal_partial`)
+is the function-hash reading, wherever `Equals` evaluates on all pairs of members (else `setValH` is `.unmodelled`) -/
+theorem setValF_eq_H (hashOf : Ty → Payload → Int) (ws : List Value) (et : Ty)
+    (het : Gocty.elemTypeOf .dyn (ws.map Value.setMember) = .ok et)
+    (hp : Value.pairsOk et (Gocty.payloads (ws.map Value.setMember)) = true) :
+    setValF hashOf ws = Value.setValH ws ((Gocty.payloads (ws.map Value.setMember)).map (hashOf et)) := by
+  unfold setValF Value.setValH
+  split
+  · rfl
+  · simp only [het, Res.map, hp, Bool.not_true, Bool.false_eq_true, if_false, zip_withHash]
+    have h := addAll_mapBuckets hashOf et (Gocty.payloads (ws.map Value.setMember)) SetImpl.empty
+    simp only [SetImpl.fromList]
+    rw [show (⟨mapBuckets (hashOf et) (SetImpl.empty : SetImpl Payload).buckets⟩ : SetImpl (Payload × Int)) = SetImpl.empty from rfl] at h
+    rw [h, flatIds_mapBuckets, values_mapBuckets]
+    rfl
+
+/-- `cty.SetVal` against `Value.setValH`, outcome up to the panic text -/
+theorem SetVal_eq (hashOf : Ty → Payload → Int) (ws : List Value) (hm : ∀ w ∈ ws, MarksFaithful w)
+    (hp : ∀ et, Gocty.elemTypeOf .dyn (ws.map Value.setMember) = .ok et →
+      Value.pairsOk et (Gocty.payloads (ws.map Value.setMember)) = true) :
+    cls (SetVal hashOf ws) = cls (match Gocty.elemTypeOf .dyn (ws.map Value.setMember) with
+      | .ok et => Value.setValH ws ((Gocty.payloads (ws.map Value.setMember)).map (hashOf et))
+      | _ => Value.setValH ws []) := by
+  rw [SetVal_eq_F hashOf ws hm]
+  cases het : Gocty.elemTypeOf .dyn (ws.map Value.setMember) with
+  | ok et => simp only; rw [setValF_eq_H hashOf ws et het (hp et het)]
+  | err c => simp [setValF, Value.setValH, het, Res.map]
+  | panic w => simp [setValF, Value.setValH, het, Res.map]
+  | unmodelled => simp [setValF, Value.setValH, het, Res.map]
+
+theorem CanSetVal_loop1_eq (v0 : List Value) : ∀ (l : List Value) (et : Ty), (∀ w ∈ l, MarksFaithful w) →
+    CanSetVal_loop1 v0 et l =
+      .ok (match Gocty.elemTypeOf et (l.map Value.setMember) with | .panic _ => false | _ => true)
+  | [], et, _ => by simp [CanSetVal_loop1, Gocty.elemTypeOf]
+  | w :: rest, et, hm => by
+    have hw : w.containsMarked = decide (w.marksDeep.length > 0) := hm w (by simp)
+    have hrest : ∀ w ∈ rest, MarksFaithful w := fun x hx => hm x (by simp [hx])
+    simp only [CanSetVal_loop1, List.map_cons, Gocty.elemTypeOf]
+    by_cases hc : w.marksDeep.length > 0
+    · have hsm : Value.setMember w = w.unmarkDeep := by simp [Value.setMember, hc]
+      have hcm : w.containsMarked = true := by rw [hw]; simp [hc]
+      simp only [hcm, if_true, hsm]
+      split
+      · exact CanSetVal_loop1_eq v0 rest _ hrest
+      · split
+        · rfl
+        · exact CanSetVal_loop1_eq v0 rest _ hrest
+    · have hsm : Value.setMember w = w := by simp [Value.setMember, hc]
+      have hcm : w.containsMarked = false := by rw [hw]; simp [hc]
+      simp only [hcm, hsm, Bool.false_eq_true, if_false]
+      split
+      · exact CanSetVal_loop1_eq v0 rest _ hrest
+      · split
+        · rfl
+        · exact CanSetVal_loop1_eq v0 rest _ hrest
+
+/-- `cty.CanSetVal`: the element-type loop over the members as `SetVal` stores them would not panic -/
+theorem CanSetVal_eq (ws : List Value) (hm : ∀ w ∈ ws, MarksFaithful w) :
+    CanSetVal ws = .ok (Gocty.canListVal (ws.map Value.setMember)) :=
+  CanSetVal_loop1_eq ws ws .dyn hm
+
+/-- `cty.SetValFromValueSet`: the set under the result is the model's `copy` of the argument's, whatever order `Copy`
+ranges over the buckets in (`Lemmas/SetFnsTie.lean`); for a set whose map is ascending, as every map the harness prints -/
+theorem SetValFromValueSet_eq (ord : SetGo.GoMap Payload → SetGo.GoMap Payload) (ho : SetFnsTie.MapOrder ord)
+    (ety : Ty) (R : Rules Payload) (s : SetImpl Payload) (ha : SetImpl.Asc s.buckets) :
+    SetValFromValueSet ord ⟨ety, ⟨s.buckets, R⟩⟩ = .ok ⟨.set ety, ifaceSet ⟨(SetImpl.copy s).buckets, R⟩⟩ := by
+  simp only [SetValFromValueSet, SetFnsTie.Set_Copy_eq ord ho R s ha, Res.bind]
+
 end ConsTie
 end CtyModel
